@@ -748,7 +748,7 @@ t0e2_%(key)s_exec(void *ctx, unsigned op, uint32_t *dpi, uint32_t *rpi, int *co)
         f.write("/* GENERATED: native words of %s; X(opcode, function, \"name\") */\n#define T0N_OPS(X) \\\n" % prog.rel)
         for n in prog.natives.values():
             f.write("\tX(%d, %s, \"%s\") \\\n" % (n.op, n.cname, n.name.replace("\\", "\\\\").replace('"', '\\"')))
-        f.write("\n#define T0N_NUM_ADDR_REWRITES %d\n#define C05_DISPATCH t0n_%s_dispatch\n" % (nrew, key))
+        f.write("\n#define T0N_NUM_ADDR_REWRITES %d\n#define C05_DISPATCH t0n_%s_dispatch\n#define T0N_RUN_FN %s_run\n" % (nrew, key, prog.base))
         for n in prog.natives.values():
             f.write("#define C05_OP_%s %d\n" % (sanitise(n.name), n.op))
     return d
